@@ -276,6 +276,17 @@ func probeDecode(o *Out, data []byte) {
 			if where, wantSrc, gotSrc := sourcesDiffer(root, safeRoot, 0); where != "" {
 				o.Fail("C03", "spans-after-caller-reuse", "after the caller reused the slice it gave to UnmarshalSafe, Source()/Marshal/String of the untouched tree at "+where+" is no longer the span that was parsed", hexIn, wantSrc, gotSrc)
 			}
+			// … and from C02: the first read of the values happens AFTER the caller reused its buffer ("whenever it is read")
+			o.Check("C02", "values-after-caller-reuse")
+			if wantV, _, rerr := refDecode(data); rerr == nil {
+				if gotV, gerr := safeRoot.Unpack(); gerr == nil {
+					if wc := canonValue(wantV); !strings.Contains(wc, "#7ff0000000000000") && !strings.Contains(wc, "#fff0000000000000") && canonValue(gotV) != wc {
+						o.Fail("C02", "values-after-caller-reuse", "a tree from UnmarshalSafe, read for the first time after the caller reused its slice, does not hold the values the text denotes", hexIn, wc, canonValue(gotV))
+					}
+				} else if wc := canonValue(wantV); !strings.Contains(wc, "#7ff0000000000000") && !strings.Contains(wc, "#fff0000000000000") {
+					o.Fail("C02", "values-after-caller-reuse", "a tree from UnmarshalSafe, read for the first time after the caller reused its slice, fails to read", hexIn, wc, gerr.Error())
+				}
+			}
 			if !bytes.Equal(safeRoot.Source(), trimmed) {
 				o.Fail("C18", "safe-independent", "after the caller overwrote its slice, Source() of a tree from UnmarshalSafe changed", hexIn, hexOrDash(trimmed), hexOrDash(safeRoot.Source()))
 			} else if out, merr := ajson.Marshal(safeRoot); merr != nil || !bytes.Equal(out, trimmed) {
@@ -334,8 +345,11 @@ func probeDecode(o *Out, data []byte) {
 			_ = out
 		}
 	}
+	o.Check("C13", "marshal-is-a-read")
 	if !bytes.Equal(root.Source(), trimmed) {
 		o.Fail("C03", "marshal-is-a-copy", "appending to the result of Marshal(node) changed the document: untouched nodes no longer reproduce their source", hexIn, hexOrDash(trimmed), hexOrDash(root.Source()))
+		// the same history seen from C13: Marshal is a read, and what the reader does with ITS bytes afterwards is not an edit of the tree
+		o.Fail("C13", "marshal-is-a-read", "Marshal(node), then append to the returned bytes: the source bytes of the queried tree changed", hexIn, hexOrDash(trimmed), hexOrDash(root.Source()))
 	}
 	if out, err := ajson.Marshal(root); err != nil || !bytes.Equal(out, trimmed) {
 		o.Fail("C03", "marshal-is-a-copy", "after appending to earlier Marshal results, Marshal(root) is no longer the source text", hexIn, hexOrDash(trimmed), hexOrDash(out))
